@@ -124,3 +124,93 @@ def self_attr_reads(fi: FuncInfo) -> set[str]:
         if isinstance(n, ast.Attribute) and isinstance(n.value, ast.Name) and n.value.id == s and isinstance(n.ctx, ast.Load):
             out.add(n.attr)
     return out
+
+
+# --------------------------------------------------------------------------
+# branch atoms: what a path *knows* after passing its branch events
+def _canon_compare(node: ast.Compare, text) -> tuple[str, bool] | None:
+    """(canonical text, polarity): the comparison holds iff canonical == polarity."""
+    if len(node.ops) != 1:
+        return None
+    l, r, op = text(node.left), text(node.comparators[0]), node.ops[0]
+    if isinstance(op, ast.Eq):
+        a, b = sorted([l, r])
+        return f"{a} == {b}", True
+    if isinstance(op, ast.NotEq):
+        a, b = sorted([l, r])
+        return f"{a} == {b}", False
+    if isinstance(op, ast.Lt):
+        return f"{l} < {r}", True
+    if isinstance(op, ast.GtE):  # l >= r  <=>  not (l < r)
+        return f"{l} < {r}", False
+    if isinstance(op, ast.Gt):  # l > r <=> r < l
+        return f"{r} < {l}", True
+    if isinstance(op, ast.LtE):  # l <= r <=> not (r < l)
+        return f"{r} < {l}", False
+    if isinstance(op, ast.Is):
+        return f"{l} is {r}", True
+    if isinstance(op, ast.IsNot):
+        return f"{l} is {r}", False
+    if isinstance(op, ast.In):
+        return f"{l} in {r}", True
+    if isinstance(op, ast.NotIn):
+        return f"{l} in {r}", False
+    return None
+
+
+def decompose(test: ast.AST, value: bool, text) -> list[tuple[str, bool]]:
+    """Atoms whose truth is implied by `test` evaluating to `value`."""
+    if isinstance(test, ast.UnaryOp) and isinstance(test.op, ast.Not):
+        return decompose(test.operand, not value, text)
+    if isinstance(test, ast.BoolOp):
+        if (isinstance(test.op, ast.And) and value) or (isinstance(test.op, ast.Or) and not value):
+            out = []
+            for v in test.values:
+                out += decompose(v, value, text)
+            return out
+        if len(test.values) == 1:
+            return decompose(test.values[0], value, text)
+        return []
+    if isinstance(test, ast.Compare):
+        c = _canon_compare(test, text)
+        if c is not None:
+            return [(c[0], value == c[1])]
+        return []
+    return [(text(test), value)]
+
+
+def path_atoms(ctx, events, upto=None) -> dict[str, bool]:
+    """Canonical atom -> truth for the branch events of a path (later events
+    override earlier ones); alias-expanded in the frame they occur in."""
+    out: dict[str, bool] = {}
+    for i, ev in enumerate(events):
+        if upto is not None and i >= upto:
+            break
+        if ev.kind != "branch":
+            continue
+        text = lambda n, _f=ev.fi: ctx.norm.xtext(_f, n)  # noqa: E731
+        for a, v in decompose(ev.node, ev.data["taken"], text):
+            out[a] = v
+    return out
+
+
+def only_called_from(ctx, fi: FuncInfo, owners: set, _seen=None) -> bool:
+    """True if every package call site of ``fi`` lies in one of ``owners`` or
+    in a function that is itself only called from them (private helpers
+    extracted from an owner)."""
+    _seen = _seen or set()
+    if fi in owners:
+        return True
+    if fi.qualname in _seen:
+        return True
+    _seen = _seen | {fi.qualname}
+    callers = []
+    for g in ctx.repo.all_functions():
+        if isinstance(g.node, ast.Lambda):
+            continue
+        for ev, t, rc in ctx.effects.calls(g, g.cls):
+            if t is fi:
+                callers.append(g)
+    if not callers:
+        return False
+    return all(only_called_from(ctx, g, owners, _seen) for g in set(callers))
